@@ -372,13 +372,19 @@ fn do_resolve<Fd: AsFd, P: AsRef<Path>>(
                         });
                     }
 
-                    // Verify that we can follow the link.
-                    // MSRV(1.69): Remove &*.
-                    may_follow_link(&*current, &next).with_wrap(|| {
-                        format!(
-                            "component {part:?} is an unsafe symlink that is blocked by fs.protected_symlinks"
-                        )
-                    })?;
+                    // Verify that we can follow the link. The kernel only
+                    // applies fs.protected_symlinks to trailing symlinks (see
+                    // pick_link() -- may_follow_link() is only called for
+                    // WALK_TRAILING), which includes the final component of a
+                    // symlink target we have just expanded.
+                    if remaining_components.is_empty() {
+                        // MSRV(1.69): Remove &*.
+                        may_follow_link(&*current, &next).with_wrap(|| {
+                            format!(
+                                "component {part:?} is an unsafe symlink that is blocked by fs.protected_symlinks"
+                            )
+                        })?;
+                    }
 
                     // We need a limit on the number of symlinks we traverse to
                     // avoid hitting filesystem loops and DoSing.
